@@ -36,6 +36,7 @@ var c12Names = []string{"t.html", "t.html.twig", "t.js", "t.js.twig", "t.css", "
 	"sale-50%.js", "my%20script.js.twig", "theme{dark}.css", "terms-100%.txt", "a{b.js", "c}}d.css", "#notes.txt", "50%{x}.html_attr",
 	// path elements that spell an extension are no extension: an extension follows the last dot of the name
 	"mail/welcome/txt", "widgets/js", "assets/css/main", "js", "txt", "to/url", "x/html_attr/y", "pages/txt/home.html", "a/js.twig", ".js", "dir/.css", "t.js/", "t.txt/x",
+	"twig", ".twig", "twig.twig", "t..twig", "t.", ".", "js.twig",
 	"inline:plain", "inline:dot", "inline:dotmid", "inline:ends-txt", "inline:ends-js", "inline:ends-css-twig"}
 
 var c12Payloads = []string{
